@@ -215,7 +215,7 @@ Lemma tabs_eq : forall a es th sd od em,
   Some (mkAbs es th sd od em) = Some a.
 Proof. intros [] * -> -> -> -> ->. reflexivity. Qed.
 
-Theorem spec_roundtrip_v3 : forall sh sf a, abs_okb a = true -> dec_spec sh (enc_v3 sf a) = Some a.
+Theorem spec_roundtrip_v3 : forall sh sf a, abs_okb a = true -> dec_spec_body sh (enc_v3 sf a) = Some a.
 Proof.
   intros sh sf a Hok. destruct (abs_ok_parts a Hok) as [Hent [Hth0 [Hth [Hemp [Hord [Hsd Hcnt]]]]]].
   pose proof (entries_lt64 a Hok) as H64.
@@ -227,7 +227,7 @@ Proof.
   set (body := if a_empty a then [] else
                  (if pre =? 1 then [] else le_bytes 4 (cnt_of a) ++ [0; 0; 0; 0]) ++
                  (if pre =? 3 then le_bytes 8 (a_theta a) else []) ++ entry_bytes a).
-  unfold dec_spec. cbn [app].
+  unfold dec_spec_body. cbn [app].
   rewrite has_true by (cbn [length]; rewrite app_length, le_bytes_length; lia).
   cbn [negb nth]. change (S_FAMILY_THETA =? S_FAMILY_THETA) with true. cbn [negb].
   change (3 =? 3) with true. cbv iota. unfold dec_v3. cbn [nth].
@@ -374,7 +374,7 @@ Proof.
 Qed.
 
 Theorem spec_roundtrip_v4 : forall sh a, abs_okb a = true -> expressible V4 a = true ->
-  dec_spec sh (enc_v4 a) = Some a.
+  dec_spec_body sh (enc_v4 a) = Some a.
 Proof.
   intros sh a Hok Hex.
   assert (Hwf : c_wf (a_seed_hash a) (conc a)) by (apply abs_ok_wf; [exact Hok|reflexivity]).
@@ -395,7 +395,7 @@ Proof.
   assert (Hfit : cnt_of a < 256 ^ N.of_nat neb) by (unfold neb, count_bytes; apply count_fits).
   set (pre := if est a then 2 else 1).
   set (flags := S_READ_ONLY + S_COMPACT + S_ORDERED).
-  unfold dec_spec. cbn [app].
+  unfold dec_spec_body. cbn [app].
   rewrite has_true by (cbn [length]; rewrite app_length, le_bytes_length; lia).
   cbn [negb nth]. change (S_FAMILY_THETA =? S_FAMILY_THETA) with true. cbn [negb].
   change (4 =? 3) with false. change (4 =? 4) with true. cbv iota. unfold dec_v4. cbn [nth].
@@ -455,7 +455,7 @@ Proof.
 Qed.
 
 (* ====================== the writers conform (C12) ====================== *)
-Theorem writer_conforms : forall sh c, c_wf sh c -> dec_spec sh (c_serialize c) = Some (abs_of c).
+Theorem writer_conforms : forall sh c, c_wf sh c -> dec_spec_body sh (c_serialize c) = Some (abs_of c).
 Proof.
   intros sh c Hwf. rewrite (model_v3_is_spec sh c Hwf). apply spec_roundtrip_v3. eapply wf_abs_ok; eauto.
 Qed.
@@ -473,7 +473,7 @@ Proof.
 Qed.
 
 Theorem compressed_writer_conforms : forall sh c bs, c_wf sh c -> c_serialize_compressed c = Ok bs ->
-  dec_spec sh bs = Some (abs_of c).
+  dec_spec_body sh bs = Some (abs_of c).
 Proof.
   intros sh c bs Hwf H. unfold c_serialize_compressed in H.
   destruct (c_is_suitable_for_compression c) eqn:E.
@@ -492,14 +492,14 @@ Lemma abs_of_conc_serialize : forall a, abs_of (conc a) = a.
 Proof. exact abs_conc. Qed.
 
 Theorem reads_v3_plain : forall sh a, abs_okb a = true -> seed_ok sh a ->
-  c_deserialize sh (enc_v3 false a) = Ok (conc a).
+  c_deser_body sh (enc_v3 false a) = Ok (conc a).
 Proof.
   intros sh a Hok Hs. pose proof (conc_wf sh a Hok Hs) as Hwf.
   rewrite <- (abs_conc a) at 1. rewrite <- (model_v3_is_spec sh _ Hwf). now apply roundtrip_v3.
 Qed.
 
 Theorem reads_v4 : forall sh a, abs_okb a = true -> seed_ok sh a -> expressible V4 a = true ->
-  c_deserialize sh (enc_v4 a) = Ok (conc a).
+  c_deser_body sh (enc_v4 a) = Ok (conc a).
 Proof.
   intros sh a Hok Hs Hex. pose proof (conc_wf sh a Hok Hs) as Hwf.
   pose proof (expressible_v4_suitable a Hex) as Hsuit.
@@ -511,9 +511,9 @@ Qed.
 Lemma v3_flags_irrelevant : forall sh pre b3 b4 f1 f2 rest,
   flag_set f1 (zN GenTheta.FLAGS_IS_EMPTY) = flag_set f2 (zN GenTheta.FLAGS_IS_EMPTY) ->
   flag_set f1 (zN GenTheta.FLAGS_IS_ORDERED) = flag_set f2 (zN GenTheta.FLAGS_IS_ORDERED) ->
-  c_deserialize sh (pre :: 3 :: 3 :: b3 :: b4 :: f1 :: rest) = c_deserialize sh (pre :: 3 :: 3 :: b3 :: b4 :: f2 :: rest).
+  c_deser_body sh (pre :: 3 :: 3 :: b3 :: b4 :: f1 :: rest) = c_deser_body sh (pre :: 3 :: 3 :: b3 :: b4 :: f2 :: rest).
 Proof.
-  intros sh pre b3 b4 f1 f2 rest He Ho. unfold c_deserialize.
+  intros sh pre b3 b4 f1 f2 rest He Ho. unfold c_deser_body.
   do 3 (rewrite rd_cons; cbn [obind]). do 3 (rewrite rd_cons; cbn [obind]).
   destruct (negb (3 =? _)); [reflexivity|]. destruct (negb (_ && _)); [reflexivity|].
   change (3 =? 1) with false. change (3 =? 2) with false. change (3 =? 3) with true. cbv iota.
@@ -524,7 +524,7 @@ Proof.
 Qed.
 
 Theorem reads_v3 : forall sh sf a, abs_okb a = true -> seed_ok sh a ->
-  c_deserialize sh (enc_v3 sf a) = Ok (conc a).
+  c_deser_body sh (enc_v3 sf a) = Ok (conc a).
 Proof.
   intros sh sf a Hok Hs. rewrite <- (reads_v3_plain sh a Hok Hs).
   unfold enc_v3. cbn [app]. change S_FAMILY_THETA with 3.
@@ -538,11 +538,11 @@ Lemma expressible_12 : forall a, a_ordered a && Bool.eqb (a_empty a) ((cnt_of a 
 Proof. intros a H. apply andb_prop in H as [H1 H2]. apply Bool.eqb_prop in H2. auto. Qed.
 
 Theorem reads_v1 : forall sh a, abs_okb a = true -> expressible V1 a = true -> a_seed_hash a = sh ->
-  c_deserialize sh (enc_v1 a) = Ok (conc a).
+  c_deser_body sh (enc_v1 a) = Ok (conc a).
 Proof.
   intros sh a Hok Hex Hseed. destruct (expressible_12 a Hex) as [Ho Hem].
   destruct (abs_ok_parts a Hok) as [Hent [Hth0 [Hth [Hemp [Hord [Hsd Hcnt]]]]]].
-  unfold enc_v1, c_deserialize. cbn [app]. change S_FAMILY_THETA with 3.
+  unfold enc_v1, c_deser_body. cbn [app]. change S_FAMILY_THETA with 3.
   do 3 (rewrite rd_cons; cbn [obind]).
   change (negb (3 =? zN GenCodec.FAMILY_THETA_ID)) with false. cbv iota.
   change (negb ((zN GenCodec.FAMILY_THETA_MIN_PRE_LONGS <=? 3) && (3 <=? zN GenCodec.FAMILY_THETA_MAX_PRE_LONGS))) with false. cbv iota.
@@ -574,11 +574,11 @@ Proof.
 Qed.
 
 Theorem reads_v2 : forall sh a, abs_okb a = true -> expressible V2 a = true -> a_seed_hash a = sh ->
-  c_deserialize sh (enc_v2 a) = Ok (conc a).
+  c_deser_body sh (enc_v2 a) = Ok (conc a).
 Proof.
   intros sh a Hok Hex Hseed. subst sh. destruct (expressible_12 a Hex) as [Ho Hem].
   destruct (abs_ok_parts a Hok) as [Hent [Hth0 [Hth [Hemp [Hord [Hsd Hcnt]]]]]].
-  unfold enc_v2, c_deserialize. set (pre := if est a then 3 else if a_empty a then 1 else 2).
+  unfold enc_v2, c_deser_body. set (pre := if est a then 3 else if a_empty a then 1 else 2).
   assert (Hpre : 1 <= pre /\ pre <= 3) by (unfold pre; destruct (est a); [lia|destruct (a_empty a); lia]).
   cbn [app]. change S_FAMILY_THETA with 3.
   do 3 (rewrite rd_cons; cbn [obind]).
@@ -632,11 +632,11 @@ Proof.
 Qed.
 
 Theorem reads_v3_long : forall sh pre a, abs_okb a = true -> expressible (V3L pre) a = true -> a_seed_hash a = sh ->
-  c_deserialize sh (enc_v3_long pre a) = Ok (conc a).
+  c_deser_body sh (enc_v3_long pre a) = Ok (conc a).
 Proof.
   intros sh pre a Hok Hex Hseed. subst sh. destruct (expressible_v3l pre a Hex) as [Hne Hpre].
   destruct (abs_ok_parts a Hok) as [Hent [Hth0 [Hth [Hemp [Hord [Hsd Hcnt]]]]]].
-  unfold enc_v3_long, c_deserialize.
+  unfold enc_v3_long, c_deser_body.
   set (flags := S_READ_ONLY + S_COMPACT + (if a_ordered a then S_ORDERED else 0)).
   assert (HF : flag_set flags (zN GenTheta.FLAGS_IS_EMPTY) = false /\ flag_set flags (zN GenTheta.FLAGS_IS_ORDERED) = a_ordered a).
   { unfold flags. destruct (a_ordered a); vm_compute; split; reflexivity. }
@@ -678,7 +678,7 @@ Qed.
 
 (* every variant, in one statement *)
 Theorem reads_every_variant : forall sh v a, abs_okb a = true -> expressible v a = true ->
-  a_seed_hash a = sh -> c_deserialize sh (enc_spec v a) = Ok (conc a) /\ abs_of (conc a) = a.
+  a_seed_hash a = sh -> c_deser_body sh (enc_spec v a) = Ok (conc a) /\ abs_of (conc a) = a.
 Proof.
   intros sh v a Hok Hex Hseed. split; [|apply abs_conc].
   destruct v as [| |sf|pre|]; cbn [enc_spec].
@@ -691,7 +691,7 @@ Qed.
 
 (* ---------- the specification is consistent for serVer 1 and 2 as well ---------- *)
 Theorem spec_roundtrip_v1 : forall sh a, abs_okb a = true -> expressible V1 a = true -> a_seed_hash a = sh ->
-  dec_spec sh (enc_v1 a) = Some a.
+  dec_spec_body sh (enc_v1 a) = Some a.
 Proof.
   intros sh a Hok Hex Hseed. destruct (expressible_12 a Hex) as [Ho Hem].
   destruct (abs_ok_parts a Hok) as [Hent [Hth0 [Hth [Hemp [Hord [Hsd Hcnt]]]]]].
@@ -707,7 +707,7 @@ Proof.
   assert (Eh : hashes (length (a_entries a)) 24 img = a_entries a).
   { unfold img, entry_bytes. rewrite !app_assoc. rewrite <- (app_nil_r (flat_map (le_bytes 8) (a_entries a))). rewrite app_assoc.
     rewrite <- app_assoc. apply hashes_flat; [rewrite !app_length, !le_bytes_length; reflexivity|exact H64]. }
-  unfold dec_spec. rewrite has_true by lia. cbn [negb].
+  unfold dec_spec_body. rewrite has_true by lia. cbn [negb].
   assert (E2 : nth 2 img 0 = S_FAMILY_THETA) by reflexivity. assert (E1 : nth 1 img 0 = 1) by reflexivity.
   rewrite E2, E1. change (S_FAMILY_THETA =? S_FAMILY_THETA) with true. cbn [negb].
   change (1 =? 3) with false. change (1 =? 4) with false. change (1 =? 2) with false. change (1 =? 1) with true. cbv iota.
@@ -721,7 +721,7 @@ Proof.
 Qed.
 
 Theorem spec_roundtrip_v2 : forall sh a, abs_okb a = true -> expressible V2 a = true ->
-  dec_spec sh (enc_v2 a) = Some a.
+  dec_spec_body sh (enc_v2 a) = Some a.
 Proof.
   intros sh a Hok Hex. destruct (expressible_12 a Hex) as [Ho Hem].
   destruct (abs_ok_parts a Hok) as [Hent [Hth0 [Hth [Hemp [Hord [Hsd Hcnt]]]]]].
@@ -744,7 +744,7 @@ Proof.
     assert (Eh : hashes (length (a_entries a)) 24 img = a_entries a).
     { unfold img, entry_bytes. rewrite !app_assoc. rewrite <- (app_nil_r (flat_map (le_bytes 8) (a_entries a))). rewrite app_assoc.
       rewrite <- app_assoc. apply hashes_flat; [rewrite !app_length, !le_bytes_length; reflexivity|exact H64]. }
-    unfold dec_spec. rewrite has_true by lia. cbn [negb].
+    unfold dec_spec_body. rewrite has_true by lia. cbn [negb].
     assert (E2 : nth 2 img 0 = S_FAMILY_THETA) by reflexivity. assert (E1 : nth 1 img 0 = 2) by reflexivity.
     assert (E0 : nth 0 img 0 = 3) by reflexivity.
     rewrite E2, E1. change (S_FAMILY_THETA =? S_FAMILY_THETA) with true. cbn [negb].
@@ -761,7 +761,7 @@ Proof.
       set (img := [1; 2; S_FAMILY_THETA; 0; 0; 0] ++ le_bytes 2 (a_seed_hash a)).
       assert (Es : u 2 6 img = a_seed_hash a).
       { unfold img. rewrite <- (app_nil_r (le_bytes 2 (a_seed_hash a))). apply u_app; [reflexivity|exact Hsd]. }
-      unfold dec_spec. rewrite has_true by (unfold img; rewrite app_length, le_bytes_length; cbn [length]; lia). cbn [negb].
+      unfold dec_spec_body. rewrite has_true by (unfold img; rewrite app_length, le_bytes_length; cbn [length]; lia). cbn [negb].
       assert (E2 : nth 2 img 0 = S_FAMILY_THETA) by reflexivity. assert (E1 : nth 1 img 0 = 2) by reflexivity.
       assert (E0 : nth 0 img 0 = 1) by reflexivity.
       rewrite E2, E1. change (S_FAMILY_THETA =? S_FAMILY_THETA) with true. cbn [negb].
@@ -780,7 +780,7 @@ Proof.
       assert (Eh : hashes (length (a_entries a)) 16 img = a_entries a).
       { unfold img, entry_bytes. rewrite !app_assoc. rewrite <- (app_nil_r (flat_map (le_bytes 8) (a_entries a))). rewrite app_assoc.
         rewrite <- app_assoc. apply hashes_flat; [rewrite !app_length, !le_bytes_length; reflexivity|exact H64]. }
-      unfold dec_spec. rewrite has_true by lia. cbn [negb].
+      unfold dec_spec_body. rewrite has_true by lia. cbn [negb].
       assert (E2 : nth 2 img 0 = S_FAMILY_THETA) by reflexivity. assert (E1 : nth 1 img 0 = 2) by reflexivity.
       assert (E0 : nth 0 img 0 = 2) by reflexivity.
       rewrite E2, E1. change (S_FAMILY_THETA =? S_FAMILY_THETA) with true. cbn [negb].
@@ -792,7 +792,7 @@ Proof.
 Qed.
 
 Theorem spec_roundtrip_v3_long : forall sh pre a, abs_okb a = true -> expressible (V3L pre) a = true ->
-  dec_spec sh (enc_v3_long pre a) = Some a.
+  dec_spec_body sh (enc_v3_long pre a) = Some a.
 Proof.
   intros sh pre a Hok Hex. destruct (expressible_v3l pre a Hex) as [Hne Hpre].
   destruct (abs_ok_parts a Hok) as [Hent [Hth0 [Hth [Hemp [Hord [Hsd Hcnt]]]]]].
@@ -816,7 +816,7 @@ Proof.
     assert (Eh : hashes (length (a_entries a)) 16 img = a_entries a).
     { unfold img, entry_bytes. rewrite !app_assoc. rewrite <- (app_nil_r (flat_map (le_bytes 8) (a_entries a))). rewrite app_assoc.
       rewrite <- app_assoc. apply hashes_flat; [rewrite !app_length, !le_bytes_length; reflexivity|exact H64]. }
-    unfold dec_spec. rewrite has_true by lia. cbn [negb].
+    unfold dec_spec_body. rewrite has_true by lia. cbn [negb].
     assert (E2 : nth 2 img 0 = S_FAMILY_THETA) by reflexivity. assert (E1 : nth 1 img 0 = 3) by reflexivity.
     assert (E0 : nth 0 img 0 = 2) by reflexivity. assert (E5 : nth 5 img 0 = flags) by reflexivity.
     rewrite E2, E1. change (S_FAMILY_THETA =? S_FAMILY_THETA) with true. cbn [negb].
@@ -838,7 +838,7 @@ Proof.
     assert (Eh : hashes (length (a_entries a)) 24 img = a_entries a).
     { unfold img, entry_bytes. rewrite !app_assoc. rewrite <- (app_nil_r (flat_map (le_bytes 8) (a_entries a))). rewrite app_assoc.
       rewrite <- app_assoc. apply hashes_flat; [rewrite !app_length, !le_bytes_length; reflexivity|exact H64]. }
-    unfold dec_spec. rewrite has_true by lia. cbn [negb].
+    unfold dec_spec_body. rewrite has_true by lia. cbn [negb].
     assert (E2 : nth 2 img 0 = S_FAMILY_THETA) by reflexivity. assert (E1 : nth 1 img 0 = 3) by reflexivity.
     assert (E0 : nth 0 img 0 = 3) by reflexivity. assert (E5 : nth 5 img 0 = flags) by reflexivity.
     rewrite E2, E1. change (S_FAMILY_THETA =? S_FAMILY_THETA) with true. cbn [negb].
@@ -849,7 +849,7 @@ Proof.
 Qed.
 
 Theorem spec_roundtrip : forall sh v a, abs_okb a = true -> expressible v a = true -> a_seed_hash a = sh ->
-  dec_spec sh (enc_spec v a) = Some a.
+  dec_spec_body sh (enc_spec v a) = Some a.
 Proof.
   intros sh v a Hok Hex Hseed. destruct v as [| |sf|pre|]; cbn [enc_spec].
   - now apply spec_roundtrip_v1.
@@ -858,3 +858,52 @@ Proof.
   - now apply spec_roundtrip_v3_long.
   - now apply spec_roundtrip_v4.
 Qed.
+
+(* ====================== the entry points ======================
+   [c_deserialize] (seed check first) and [dec_spec] (preamble-longs byte in 1..3 first). *)
+Lemma enc_spec_pre_ok : forall v a, expressible v a = true ->
+  let pre := nth 0 (enc_spec v a) 0 in (1 <=? pre) && (pre <=? 3) = true.
+Proof.
+  intros v a Hex. destruct v as [| |sf|pre|]; cbn [enc_spec].
+  - reflexivity.
+  - unfold enc_v2. cbn [app nth]. destruct (est a); [reflexivity|]. destruct (a_empty a); reflexivity.
+  - unfold enc_v3. cbn [app nth]. destruct (a_empty a); [reflexivity|]. destruct (est a); [reflexivity|]. destruct (is_single a); reflexivity.
+  - destruct (expressible_v3l pre a Hex) as [_ [[-> _] | ->]]; reflexivity.
+  - unfold enc_v4. cbn [app nth]. destruct (est a); reflexivity.
+Qed.
+
+Lemma dec_spec_ep : forall sh bs, (1 <=? nth 0 bs 0) && (nth 0 bs 0 <=? 3) = true -> dec_spec sh bs = dec_spec_body sh bs.
+Proof. intros sh bs H. unfold dec_spec. cbv zeta. now rewrite H. Qed.
+
+Theorem ep_spec_roundtrip : forall sh v a, abs_okb a = true -> expressible v a = true -> a_seed_hash a = sh ->
+  dec_spec sh (enc_spec v a) = Some a.
+Proof.
+  intros sh v a Hok Hex Hs. rewrite dec_spec_ep by (apply enc_spec_pre_ok; exact Hex). now apply spec_roundtrip.
+Qed.
+
+Lemma serialize_pre_ok : forall c, let pre := nth 0 (c_serialize c) 0 in (1 <=? pre) && (pre <=? 3) = true.
+Proof.
+  intros c. unfold c_serialize. cbn [app nth]. unfold c_preamble_longs.
+  destruct (c_is_estimation_mode c); [reflexivity|]. destruct (_ || _); reflexivity.
+Qed.
+
+Theorem ep_writer_conforms : forall sh c, c_wf sh c -> dec_spec sh (c_serialize c) = Some (abs_of c).
+Proof. intros sh c Hwf. rewrite dec_spec_ep by apply serialize_pre_ok. now apply writer_conforms. Qed.
+
+Theorem ep_compressed_writer_conforms : forall sh c bs, c_wf sh c -> c_serialize_compressed c = Ok bs ->
+  dec_spec sh bs = Some (abs_of c).
+Proof.
+  intros sh c bs Hwf H. rewrite dec_spec_ep; [now apply (compressed_writer_conforms sh c)|].
+  unfold c_serialize_compressed in H. destruct (c_is_suitable_for_compression c) eqn:E.
+  - rewrite (model_v4_is_spec sh c Hwf E) in H. inversion H.
+    apply (enc_spec_pre_ok V4). eapply suitable_expressible; eauto.
+  - inversion H. apply serialize_pre_ok.
+Qed.
+
+Theorem ep_reads_every_variant : forall sh v a, sh <> 0 -> abs_okb a = true -> expressible v a = true ->
+  a_seed_hash a = sh -> c_deserialize sh (enc_spec v a) = Ok (conc a) /\ abs_of (conc a) = a.
+Proof. intros sh v a H0 Hok Hex Hs. rewrite deser_ep by exact H0. now apply reads_every_variant. Qed.
+
+Theorem ep_reads_v3 : forall sh sf a, sh <> 0 -> abs_okb a = true -> (a_empty a = false -> a_seed_hash a = sh) ->
+  c_deserialize sh (enc_v3 sf a) = Ok (conc a).
+Proof. intros sh sf a H0 Hok Hs. rewrite deser_ep by exact H0. now apply reads_v3. Qed.
